@@ -37,7 +37,7 @@ def signature(v) -> str:
 
 
 class Outcome:
-    __slots__ = ("status", "canon", "value", "lines", "ws", "wsk", "fault_site", "evict_site", "exc")
+    __slots__ = ("status", "canon", "value", "lines", "ws", "wsk", "fault_site", "evict_site", "exc", "env_changed")
 
     def __init__(self):
         self.status = "ok"      # ok | skipped | budget | faulted
@@ -49,6 +49,17 @@ class Outcome:
         self.fault_site = None
         self.evict_site = None
         self.exc = None
+        self.env_changed = None
+
+
+def env_state():
+    """Process/thread-level state a query must leave alone (it changes later answers without touching any operand)."""
+    import sys
+    import warnings
+
+    po = np.get_printoptions()
+    return (tuple(sorted(np.geterr().items())), tuple(sorted((k, repr(v)) for k, v in po.items())),
+            sys.getrecursionlimit(), len(warnings.filters))
 
 
 def flatten_outputs(value) -> list:
@@ -83,6 +94,7 @@ def exec_step(world: W.World, step: dict, ctx: seam.Ctx, fault=None, fp=False, e
         w = evict["which"]
         ctx.evict_fn = lambda: W.evict_caches(w)
     ctx.force_at = force_at
+    env0 = env_state()
     ctx.begin()
     try:
         if fp:
@@ -108,6 +120,11 @@ def exec_step(world: W.World, step: dict, ctx: seam.Ctx, fault=None, fp=False, e
     if ctx.trace_ws:
         out.ws = ctx.ws_ordinals
         out.wsk = ctx.ws_events
+    env1 = env_state()
+    if env1 != env0:
+        out.env_changed = [a for a, b in zip(("np.geterr", "np.get_printoptions", "sys.getrecursionlimit",
+                                              "len(warnings.filters)"), zip(env0, env1)) if b[0] != b[1]]
+        np.seterr(**dict(env0[0]))   # put the error state back so that the run can go on
     out.canon = snapshot.canon(out.value)
     if out.fault_site is not None or out.evict_site is not None or (fp and isinstance(out.exc, FloatingPointError)):
         # the faulted step's own outcome is unconstrained. A step that ran under np.errstate(all="raise") WITHOUT
@@ -128,6 +145,14 @@ def store_outputs(world: W.World, step: dict, out: Outcome) -> None:
 
 # ---------------------------------------------------------------------------------------------------------------------
 # O1
+
+
+def env_violation(out, step) -> Violation | None:
+    if getattr(out, "env_changed", None):
+        return mk_violation("C12", "O1", step["i"], step["op"], "process-wide state changed by the call and not "
+                            f"restored: {out.env_changed}", objcls="process", path="." + ",".join(out.env_changed),
+                            kind="env-state", where="process")
+    return None
 
 
 def o1_check(world: W.World, slots, step, op, full=False) -> Violation | None:
@@ -318,7 +343,7 @@ def golden_run(case: dict, rng: random.Random | None, stats: dict) -> tuple[list
             if gen is not None:
                 gen.after(step, world)
         full = (i % 4 == 3) or len(world.slots) <= 40
-        v = o1_check(world, step["args"], step["i"], step["op"], full=full)
+        v = env_violation(out, step) or o1_check(world, step["args"], step["i"], step["op"], full=full)
         if v is not None:
             return history, v
         if step["mode"] == "reask" and out.status == "ok":
@@ -459,7 +484,7 @@ def faulted_seq_run(case: dict, plan: dict, golden: list[dict], stats: dict):
         hist2.append(h)
         if out.status == "ok":
             store_outputs(world, step, out)
-        v = o1_check(world, step["args"], g["i"], g["op"], full=True)
+        v = env_violation(out, step) or o1_check(world, step["args"], g["i"], g["op"], full=True)
         if v is not None:
             v["detail"] += fault_note(out, g["i"] in fps)
             return v, hist2
@@ -598,6 +623,9 @@ def preempt_run(case: dict, plan: dict, golden: list[dict], stats: dict):
             return v
         for g, out in now:
             i = g["i"]
+            v = env_violation(out, g)
+            if v is not None:
+                return v
             stats["steps"] += 1
             stats["lines"] += out.lines
             note_faults(stats, out, i in fps, i in faults, i in evicts)
